@@ -74,9 +74,27 @@ def run(ctx):
             gr = lc.get_result
             ctx.used(gr)
             un = [st for st in walk_local(gr.node) if isinstance(st, ast.Assign) and isinstance(st.targets[0], ast.Tuple) and len(st.targets[0].elts) == 2]
-            ok = len(un) >= 1 and is_self_attr(un[0].targets[0].elts[0], lc.slot) and is_self_attr(un[0].targets[0].elts[1], attr)
+            ok = len(un) >= 1 and is_self_attr(un[0].targets[0].elts[0], lc.slot)
+            cond = None
+            if ok and not is_self_attr(un[0].targets[0].elts[1], attr):
+                # the state may go through a local first; it must then be stored wherever the unpacking ran (no test of its own in between:
+                # every value, None included, is a state the child may have assigned last)
+                from ..astutil import guards_of
+                tmp = un[0].targets[0].elts[1]
+                pm = parent_map(gr.node)
+                base = {id(g0) for g0, _ in guards_of(pm, un[0], gr.node)}
+                stores = [st for st in walk_local(gr.node) if isinstance(st, ast.Assign) and len(st.targets) == 1 and is_self_attr(st.targets[0], attr)
+                          and isinstance(tmp, ast.Name) and is_name(st.value, tmp.id) and st.lineno > un[0].lineno]
+                ok = bool(stores)
+                extra = [g0 for st in stores for g0, _ in guards_of(pm, st, gr.node) if id(g0) not in base]
+                if ok and len(extra) >= len(stores):
+                    cond = extra[0]
             ctx.check('R1', f'{gr.short}: the parent unpacks (outcome, state) into the slot and self.{attr}', ok, gr.short, 'state-not-unpacked',
                       f'{gr.short} does not store the received state: the parent keeps the initial user_state', where=loc(gr, gr.node))
+            ctx.check('R1', f'{gr.short}: the received state is stored whatever its value', cond is None, gr.short, 'state-stored-conditionally',
+                      f'{gr.short} stores the received state only under `{norm(cond.test) if cond is not None else ""}`: a child whose last assignment is a value '
+                      'failing that test (None, an empty container) leaves the parent - and the next incarnation after restart() - with the previous state',
+                      where=loc(gr, cond if cond is not None else gr.node))
         elif lc.kind == 'remote':
             g = lc.g
             out = [r for r in lc.recorders if r.how == 'send']
